@@ -562,7 +562,7 @@ def run(prog: Program, res: Result, tier: str) -> None:
     res.floor("R6", 4)
     res.floor("R7", 3)
     res.floor("R8", 2)
-    res.floor("R9", 20)
+    res.floor("R9", 15)
     res.floor("R10", 9)
 
 
